@@ -1055,6 +1055,7 @@ def c10_expected(items, sender):
     """independent of the model: the longest in-order unmodified prefix of the right sender"""
     j = 0
     for it in items:
+        if it.startswith('z'): continue          # a stall of the network changes nothing about what may be delivered
         if it == f'f{sender}{j}': j += 1
         else: break
     return list(range(j))
@@ -1094,12 +1095,31 @@ def check_C10(run):
                 j = dist + 30
                 cases.append((n_long, n_long, hb[:j] + [hb[j - dist]] + hb[j + 1:], hd))
                 cases.append((n_long, n_long, hb, hd[:j] + [hd[j - dist]] + hd[j + 1:]))
+    # stalls: the network delivers nothing for a while - between frames (harmless: everything still arrives), and in the middle of a frame that
+    # an attacker cut short or made up (a length header announcing more than follows), the genuine frames after it passed on afterwards:
+    # nothing after the gap may be delivered, however long the stall.  The stall lengths: 1.3 s always; when the source holds socket or
+    # channel time-outs (extracted: linkSocketPlain), every duration that occurs in it plus half a second.
+    stall_ms = [1300]
+    if run.extract_status.get('link-socket') or thorough:
+        import re as _re3
+        try:
+            seen_ = [int(x) for x in _re3.findall(r'\d+', open(os.path.join(C.LEAN, 'RjModel', 'Generated', 'LinkSocket.lean')).read().split('durationsSeen')[-1])]
+        except OSError:
+            seen_ = []
+        stall_ms += [x * 1000 + 500 for x in seen_ if 1 <= x <= 60][:3] + ([5500] if thorough else [])
+    for ms in sorted(set(stall_ms)):
+        hb = [f'fb{k}' for k in range(6)]; hd = [f'fd{k}' for k in range(6)]
+        cases.append((6, 6, hb[:3] + [f'z{ms}'] + hb[3:], hd[:2] + [f'z{ms}'] + hd[2:]))                       # honest, with a stall between frames
+        cases.append((6, 6, hb[:2] + ['h60:0', f'z{ms}'] + hb[3:], hd))                                       # frame 2 withheld, a bare header, stall, the rest
+        cases.append((6, 6, hb[:2] + ['h60:20', f'z{ms}'] + hb[3:], hd))                                      # ... a header and part of a body
+        cases.append((6, 6, hb, hd[:3] + ['h33:5', f'z{ms}'] + hd[4:]))                                       # the same towards the boss
+        cases.append((6, 6, hb[:4] + ['fb4/7', f'z{ms}'] + hb[5:], hd))
     key = '%032x' % rng.getrandbits(128)
     hl = [f'mitm {key} {nb} {nd} {len(td)} ' + ' '.join(td) + f' {len(tb)} ' + ' '.join(tb) for nb, nd, td, tb in cases]
     hl = [' '.join(l.split()) for l in hl]
     impl = [a for a, _ in C.run_harness(hl, timeout=1800)]
     def mitems(items):
-        return ' '.join(it if (it.startswith('f') and '~' not in it and '/' not in it and '^' not in it) else 'x' for it in items)
+        return ' '.join(it if (it.startswith('f') and '~' not in it and '/' not in it and '^' not in it) else 'x' for it in items if not it.startswith('z'))
     ml = []
     for nb, nd, td, tb in cases:
         ml.append('frames 1 ' + mitems(td)); ml.append('frames 0 ' + mitems(tb))
